@@ -42,6 +42,7 @@ import Proofs.C02Project
 import Proofs.C02Q
 import Proofs.C02Regions
 import Proofs.C02Global
+import Proofs.C02Nest
 
 namespace TM
 open C02
@@ -448,6 +449,86 @@ theorem C02_new_configuration (cfg : NCfg) (hwf : cfg.states.WF = true) (scope :
     resolveTransition_spec enterSpec_holds enterRootEq_holds cfg hwf scope hsc conf hc hlen dest r h
   exact ⟨tok, tlen, tmem⟩
 
+/-! ### several models on one machine -/
+
+/-- **an event of model `m` leaves every other model alone**: configuration, ghost log (hence the set of states entered
+and not exited) and everything else of every other model are unchanged -/
+theorem C02_models_frame (sc : Script) (cfg : NCfg) (qmax fuel m ev : Nat) (ms ms' : MSt)
+    (h : mapiTrigger sc cfg qmax fuel m ev ms = some ms') :
+    ∀ m', m' ≠ m → alookup m' ms' = alookup m' ms := by
+  intro m' hne
+  simp only [mapiTrigger] at h
+  cases hs : alookup m ms with
+  | none => simp [hs] at h
+  | some s =>
+    simp only [hs] at h
+    cases hr : nrunCmd sc cfg qmax fuel (.trigger 0 ev) s with
+    | ok a s1 => simp only [hr, Option.some.injEq] at h; subst h; exact alookup_aset_ne m m' s1 hne ms
+    | err e s1 => simp only [hr, Option.some.injEq] at h; subst h; exact alookup_aset_ne m m' s1 hne ms
+    | oof => simp [hr] at h
+
+/-- **per model**: every model of the machine satisfies the invariant w.r.t. its OWN ghost bookkeeping after every
+history of calls addressed to any of the models (each model: its own entered-and-not-exited set = its own reported
+configuration plus ancestors; order / balance flags never rise; clean unless one of ITS events executed two transitions) -/
+theorem C02_models_history (cfg : NCfg) (hwf : cfg.states.WF = true) (sc : Script) (hR : NoRaise sc) (hC : NoCmds sc)
+    (qmax fuel : Nat) :
+    ∀ (h : List (Nat × Nat)) (ms ms' : MSt) (g0 : Nat → G),
+      (∀ m s, alookup m ms = some s → GI cfg (grun cfg (g0 m) s.glog) s.conf ∧
+        (grun cfg (g0 m) s.glog).core = (false, false, false, false, false)) →
+      mrunHistory sc cfg qmax fuel h ms = some ms' →
+      ∀ m s', alookup m ms' = some s' → GI cfg (grun cfg (g0 m) s'.glog) s'.conf ∧
+        (grun cfg (g0 m) s'.glog).core = (false, false, false, false, false) := by
+  intro h
+  induction h with
+  | nil => intro ms ms' g0 hI hrun; simp only [mrunHistory, Option.some.injEq] at hrun; subst hrun; exact hI
+  | cons c h ih =>
+    intro ms ms' g0 hI hrun
+    obtain ⟨m, ev⟩ := c
+    simp only [mrunHistory] at hrun
+    cases h1 : mapiTrigger sc cfg qmax fuel m ev ms with
+    | none => simp [h1] at hrun
+    | some ms1 =>
+      simp only [h1] at hrun
+      refine ih ms1 ms' g0 ?_ hrun
+      intro m' s1 hs1
+      by_cases hm : m' = m
+      · subst hm
+        simp only [mapiTrigger] at h1
+        cases hs : alookup m' ms with
+        | none => simp [hs] at h1
+        | some s =>
+          simp only [hs] at h1
+          obtain ⟨hgi, hcore⟩ := hI m' s hs
+          have step : ∀ s2, (nrunCmd sc cfg qmax fuel (.trigger 0 ev) s).state? = some s2 →
+              GI cfg (grun cfg (g0 m') s2.glog) s2.conf ∧
+              (grun cfg (g0 m') s2.glog).core = (false, false, false, false, false) := by
+            intro s2 h2
+            cases fuel with
+            | zero => simp [nrunCmd, Res.state?] at h2
+            | succ f =>
+              have h3 : (napiTrigger (nrunCmd sc cfg qmax f) sc cfg qmax ev s).state? = some s2 := by
+                simp only [nrunCmd] at h2
+                cases hx : napiTrigger (nrunCmd sc cfg qmax f) sc cfg qmax ev s with
+                | ok b sx => simpa [hx, Res.map, Res.state?] using h2
+                | err e sx => simpa [hx, Res.map, Res.state?] using h2
+                | oof => simp [hx, Res.map, Res.state?] at h2
+              obtain ⟨seg, hl, hi, hc, _, _⟩ :=
+                C02_step_partial cfg hwf (nrunCmd sc cfg qmax f) sc hR hC qmax ev s s2 _ hgi h3
+              rw [hl, grun_append]
+              exact ⟨hi, hc.trans hcore⟩
+          cases hr : nrunCmd sc cfg qmax fuel (.trigger 0 ev) s with
+          | ok a sx =>
+            simp only [hr, Option.some.injEq] at h1; subst h1
+            rw [alookup_aset_self] at hs1; cases hs1
+            exact step s1 (by simp [hr, Res.state?])
+          | err e sx =>
+            simp only [hr, Option.some.injEq] at h1; subst h1
+            rw [alookup_aset_self] at hs1; cases hs1
+            exact step s1 (by simp [hr, Res.state?])
+          | oof => simp [hr] at h1
+      · rw [C02_models_frame sc cfg qmax fuel m ev ms ms1 h1 m' hm] at hs1
+        exact hI m' s1 hs1
+
 /-! ### the state value and the observable trace -/
 
 /-- the model keeps the configuration as a tree, the code keeps `_build_state_list(tree)` in the model's state
@@ -475,6 +556,25 @@ theorem C02_monitor_accepts_model (cfg : NCfg) (hwf : cfg.states.WF = true) (hI 
   rw [hp] at hm
   simp only [check, hp]
   exact (C02_history cfg hwf sc hR hC qmax fuel evs s0 s' h0 h).2.2 hm
+
+/-- **nesting of the enter / exit callbacks while they run**: in the model every callback invocation is a `call` item
+immediately followed by its `done` item, so no enter callback ever starts while an ancestor's is still running and no exit
+callback while a descendant's is — the nesting monitor `C02.nestOk` (which the driver runs on implementation traces, where
+the async classes can suspend inside a callback) accepts every observable trace of the model; together with
+`C02_monitor_accepts_model`: the whole monitor `C02.check2` does -/
+theorem C02_nesting_model (cfg : NCfg) (hwf : cfg.states.WF = true) (hI : Instrumented cfg)
+    (sc : Script) (hR : NoRaise sc) (hC : NoCmds sc) (qmax fuel : Nat) (evs : List Nat) (s0 s' : NSt)
+    (h0 : NSt.init cfg = some s0) (h : nrunHistory sc cfg qmax fuel evs s0 = some s') :
+    nestOk cfg s'.log = true ∧
+    ((grun cfg (G.init cfg s0.conf) (project cfg s'.log)).maxExec ≤ 1 → check2 cfg s0.conf s'.log = true) := by
+  have hlog : s0.log = [] := by
+    simp only [NSt.init, Option.map_eq_some_iff] at h0
+    obtain ⟨f, _, rfl⟩ := h0; rfl
+  have hn : nestOk cfg s'.log = true :=
+    nestOk_of_idle cfg s'.log (nest_history cfg sc hC qmax fuel evs s0 s' (by rw [hlog]; rfl) h)
+  refine ⟨hn, fun hm => ?_⟩
+  simp only [check2, Bool.and_eq_true]
+  exact ⟨(C02_monitor_accepts_model cfg hwf hI sc hR hC qmax fuel evs s0 s' h0 h).2 hm, hn⟩
 
 /-- non-vacuity of the recorder convention: `P`(1) ⊃ `a`(2), `b`(3); `Q`(4), every state with its own on_enter /
 on_exit recorder (plus a second on_enter callback on `P`), one machine-level and one locally declared transition with
